@@ -2,7 +2,7 @@
 """Generates /verif/MANIFEST.json from the table below (single source of truth for what is claimed)."""
 import json
 
-HOOK_COMMITS = ["d0a5f52", "9f37ab8"]
+HOOK_COMMITS = ["d0a5f52", "9f37ab8", "6f42907"]
 
 # id -> (category, technique, text, note, design_ref)
 CHECKS = {
